@@ -18,6 +18,9 @@ using namespace Vector::BLF;
 #ifndef NOBJ
 #define NOBJ 4
 #endif
+#ifndef SCALED_BUFFER
+#define SCALED_BUFFER (containerSize + 80)   /* >= container size (write side) and >= largest decoder chunk (read side) */
+#endif
 #ifndef EARLY_CLOSE_AFTER
 #define EARLY_CLOSE_AFTER (-1)
 #endif
@@ -76,6 +79,11 @@ extern "C" void h_session() {
         containerSize = static_cast<uint32_t>(catLen / CONTAINER_DIVIDES_PAYLOAD);
         if (containerSize * CONTAINER_DIVIDES_PAYLOAD != static_cast<uint32_t>(catLen)) containerSize = static_cast<uint32_t>(catLen);
         f.setDefaultLogContainerSize(containerSize);
+#endif
+#ifdef SCALE_THRESHOLDS
+        // scaled-down back-pressure thresholds (the API fixes them at 10 objects / >= 128 KiB): the workers and the
+        // application really block on full queue / full stream in a session of a few objects
+        f.m_readWriteQueue.setBufferSize(2); f.m_uncompressedFile.setBufferSize(SCALED_BUFFER);
 #endif
         f.open(VP_FILE("a.blf"), std::ios_base::out);
         VP_ASSERT(f.is_open());
@@ -152,11 +160,17 @@ extern "C" void h_session() {
     // ---- read session
     {
         File g;
+#ifdef SCALE_THRESHOLDS
+        g.m_readWriteQueue.setBufferSize(2); g.m_uncompressedFile.setBufferSize(SCALED_BUFFER);
+#endif
         g.open(VP_FILE("a.blf"), std::ios_base::in);
         VP_ASSERT(g.is_open());
         int cnt = 0;
         for (;;) {
             if (EARLY_CLOSE_AFTER >= 0 && cnt == EARLY_CLOSE_AFTER) break;
+#ifdef SCALE_THRESHOLDS
+            vp_yield();
+#endif
             ObjectHeaderBase * o = g.read();
             if (!o) break;
 #ifdef CHECK_C01
@@ -184,6 +198,9 @@ extern "C" void h_session() {
             vp_assert(g.currentUncompressedFileSize == hdrUncompressed, "C05: reader's running uncompressed size equals the header value");
 #endif
         }
+#ifdef SCALE_THRESHOLDS
+        vp_yield();        // the workers are parked on full queue / full stream when close() arrives
+#endif
         g.close();
         VP_ASSERT(!g.is_open());
     }
